@@ -39,7 +39,7 @@ pub fn batches(check: &str) -> Vec<Batch> {
             b("three-vars", { let mut o = GenOpts::base(&bool_kinds()).emph(Binary, 10).emph(Ite, 10).emph(Cof, 8).emph(Order, 10).emph(Observe, 8).emph(Quant, 0).emph(Subst, 0).emph(Pick, 0).emph(SatCount, 0); o.max_vars = 3; o.allow_names = false; o }, 2),
         ],
         "C03" => vec![
-            b("all-kinds-structure", { let mut o = GenOpts::base(&all_kinds()).emph(Order, 8).emph(Gc, 8).emph(AddVars, 8).emph(Names, 6).emph(Dddmp, 6); o.allow_dddmp = true; o }, 3),
+            b("all-kinds-structure", { let mut o = GenOpts::base(&all_kinds()).emph(Order, 8).emph(Gc, 8).emph(AddVars, 8).emph(Names, 6).emph(Dddmp, 6); o.allow_dddmp = true; o.big_count = true; o }, 3),
             b("tight", { let mut o = GenOpts::base(&all_kinds()).emph(Order, 6); o.tight_pct = 100; o }, 1),
             b("numeric-terminals", { let mut o = GenOpts::base(&mt_kinds()).emph(Binary, 14).emph(Ite, 8).emph(Gc, 6).emph(Order, 6); o.allow_names = false; o }, 1),
         ],
@@ -54,7 +54,7 @@ pub fn batches(check: &str) -> Vec<Batch> {
         ],
         "C06" => vec![
             b("cache-history", GenOpts::base(&all_kinds()).emph(Binary, 12).emph(Rederive, 12).emph(Gc, 10).emph(Order, 8).emph(AddVars, 6).emph(Subst, 10).emph(Quant, 8).emph(DropH, 8), 3),
-            b("zbdd-cache", { let mut o = GenOpts::base(&[Kind::Zbdd]).emph(ZOps, 14).emph(Rederive, 10).emph(Gc, 6).emph(Order, 6).emph(AddVars, 6); o.allow_names = false; o }, 1),
+            b("zbdd-cache", { let mut o = GenOpts::base(&[Kind::Zbdd]).emph(ZOps, 14).emph(Rederive, 14).emph(Quant, 12).emph(Gc, 6).emph(Order, 6).emph(AddVars, 8).emph(Names, 8); o }, 1),
         ],
         "C08" => vec![
             b("reorder-chains", { let mut o = GenOpts::base(&all_kinds()).emph(Order, 30).emph(Gc, 8).emph(DropH, 8); o.allow_names = false; o }, 3),
@@ -88,7 +88,7 @@ pub fn batches(check: &str) -> Vec<Batch> {
             };
             vec![b("dddmp-fault-free", mk(0), 3), b("dddmp-io-faults", mk(1), 2), b("dddmp-stored-byte-faults", mk(2), 1)]
         }
-        "C20" => vec![b("config-equivalence", { let mut o = GenOpts::base(&[Kind::Bdd, Kind::Bcdd, Kind::Zbdd, Kind::Tdd, Kind::MtbddI, Kind::MtbddF]).emph(Order, 8).emph(Gc, 6).emph(Quant, 6).emph(Subst, 6); o.threads = vec![1, 1, 2, 8]; o.allow_names = false; o.ample_only = true; o }, 1)],
+        "C20" => vec![b("config-equivalence", { let mut o = GenOpts::base(&[Kind::Bdd, Kind::Bcdd, Kind::Zbdd, Kind::Tdd, Kind::MtbddI, Kind::MtbddF]).emph(Order, 8).emph(Gc, 6).emph(Quant, 6).emph(Subst, 6); o.threads = vec![1, 1, 2, 8]; o.allow_names = false; o.ample_only = true; o.big_count = true; o }, 1)],
         _ => vec![],
     }
 }
